@@ -508,9 +508,9 @@ fn gen_msg(rng: &mut Rng) -> ConvCase {
             Ok(hd) => format!("(Some (Some ({}, {}, {})))", z(hd.signature_algorithm as i64), coq_bytes(&hd.verification_key_id), z(hd.associated_data_length as i64)),
         },
     };
-    let text = format!("CMsg (mkMsg {} {} {} {} {} {} {} [({}, {}, {})] {} {})", coq_bytes(&m2.header_and_body), coq_bytes(&m2.signature), dec,
+    let text = format!("CMsg (mkMsg {} {} {} {} {} {} {} [({}, {}, {}, {})] {} {})", coq_bytes(&m2.header_and_body), coq_bytes(&m2.signature), dec,
         coq_bool(p256::ecdsa::Signature::from_der(&m2.signature).is_ok()), coq_opt(vkey.map(|k| k.to_string())), slen, coq_bytes(&vassoc),
-        algno, k, coq_bytes(&signed_input), coq_bool(expect), res);
+        algno, k, coq_bytes(&m.signature), coq_bytes(&signed_input), coq_bool(expect), res);
     let human = format!("msg digest={algno} kind={kind} assoc_len={} declared={declared} supplied={slen} key={vkey:?} result={res} expect={expect}", assoc.len());
     ConvCase { text, human, nontrivial: true, kind, res }
 }
